@@ -4,6 +4,8 @@ import BasicModel.Spec.PrintSpec
 import BasicModel.Lemmas.C11
 import BasicModel.Thm.C07
 import BasicModel.Lemmas.PrintList
+import BasicModel.Spec.PrintStmt
+import BasicModel.Lemmas.PrintRun
 /-
   C11 — PRINT lays out output exactly as documented.
 
@@ -18,6 +20,14 @@ import BasicModel.Lemmas.PrintList
   * the column the VM tracks is `Spec.columnAfter` of the emitted text (newline → 0, else +1).
   * the PRINT list desugaring, one unfolding step of `Parse.printList` per kind of token, and the
     whole-list statement `printList_desugar` for lists of C02-fragment expressions, `,` and `;`.
+  * the PRINT statement end to end (last section): the specification `Spec.printSpec`
+    (Spec/PrintStmt.lean) of a whole list — values, `;`, `,`, TAB, SPC, POS, the final newline —,
+    the node the parser builds (`printAst`), the code generated for it (`stmtCode`) and the run of
+    that code on the VM: the `print` events carry exactly the specification's texts, `printCol`
+    ends as the specification's column, stack and variables are restored; TAB and POS see the
+    column at their place in the list; two statements in sequence carry the column over.
+    Formulated over `Runtime.step` iterated with an accumulator of printed texts (`runCollect`);
+    for the case without error also over repeated `Runtime.execute` slices (`slices`).
 -/
 namespace Basic
 namespace Thm.C11
@@ -530,6 +540,440 @@ example : ∃ N out st', Lemmas.PrintList.Outs
 
 example : Lemmas.PrintList.lfAfter true [.expr (Thm.C02.L 1), .comma] = false ∧
     Lemmas.PrintList.lfAfter true [.expr (Thm.C02.L 1), .semi, .expr (Thm.C02.L 2)] = true := ⟨rfl, rfl⟩
+
+/-! ### the PRINT statement, end to end
+
+`Spec.printSpec vars col items` (Spec/PrintStmt.lean) is the documented meaning of `PRINT items` from
+cursor column `col`: the texts written (`chunks`, one per writing item), the column afterwards, the
+error that stopped the list (if any).  Items: `Spec.PrItem` — a value expression, `;`, `,`, `TAB(e)`,
+`SPC(e)`, `POS(e)`; well-formed (`PrItem.Ok`) when the expressions are in the fragment `Spec.Pure`
+of `Spec.eval`. -/
+
+section statement
+open Spec Lemmas.PrintRun Lemmas.ExprCompile
+
+/-! #### (1) the specification -/
+
+/-- a string is written as is -/
+theorem itemText_string (s : Str) : itemText (.str s) = s := rfl
+
+/-- a number is written as `Val.display` — a blank or a minus sign in front (`number_wrapper_partial`,
+    `int_display_wrapper`, `float_display_switch`) — followed by one blank -/
+theorem itemText_number (v : Val) (hv : v.isNumeric = true) :
+    itemText v = v.display ++ [' '] ∧
+    ((itemText v).head? = some ' ' ∨ (itemText v).head? = some '-') ∧ (itemText v).getLast? = some ' ' := by
+  have h : itemText v = v.display ++ [' '] := by cases v <;> first | rfl | cases hv
+  refine ⟨h, ?_, by rw [h]; simp⟩
+  rw [h]
+  rcases number_wrapper_partial v hv with hd | hd
+  · left; cases hv' : v.display with
+    | nil => rw [hv'] at hd; cases hd
+    | cons c cs => rw [hv'] at hd; simpa using hd
+  · right; cases hv' : v.display with
+    | nil => rw [hv'] at hd; cases hd
+    | cons c cs => rw [hv'] at hd; simpa using hd
+
+/-- the text PRINT writes is the one `doPrint` emits (`print_col_tracks`) -/
+theorem itemText_printText (v : Val) : itemText v = printText v := itemText_eq_printText v
+
+/-- `,`: between 1 and 14 blanks, ending on a multiple of the zone width 14 — and this is what the
+    generated `TAB(Gen.printZone)` computes from the same column -/
+theorem zoneBlanks_spec (col : Nat) :
+    1 ≤ (zoneBlanks col).length ∧ (zoneBlanks col).length ≤ 14 ∧ (∀ ch ∈ zoneBlanks col, ch = ' ') ∧
+    (col + (zoneBlanks col).length) % 14 = 0 ∧
+    columnAfter col (zoneBlanks col) = (col / zoneWidth + 1) * zoneWidth ∧
+    Func.tab col (.int Gen.printZone) = .ok (.str (zoneBlanks col)) := by
+  refine ⟨?_, ?_, ?_, ?_, ?_, tab_printZone col⟩
+  · simp only [zoneBlanks, zoneWidth, List.length_replicate]; omega
+  · simp only [zoneBlanks, zoneWidth, List.length_replicate]; omega
+  · intro ch h; exact (List.mem_replicate.1 h).2
+  · simp only [zoneBlanks, zoneWidth, List.length_replicate]; omega
+  · simp only [zoneBlanks]; rw [columnAfter_blanks]; simp only [zoneWidth]; omega
+
+/-- what each kind of item contributes at cursor column `col` — TAB and POS take that column -/
+theorem itemVal_cases (vars : Var) (col : Nat) (c : Col) (e : Expr) :
+    itemVal vars col (.expr e) = some (eval vars e) ∧
+    itemVal vars col .semi = none ∧
+    itemVal vars col (.comma c) = some (.ok (.str (zoneBlanks col))) ∧
+    itemVal vars col (.tab c e) = some (eval vars e >>= Func.tab col) ∧
+    itemVal vars col (.spc c e) = some (eval vars e >>= Func.spc) ∧
+    itemVal vars col (.pos c e) = some (eval vars e >>= fun _ => Func.pos col) :=
+  ⟨rfl, rfl, rfl, rfl, rfl, rfl⟩
+
+/-- the column of the result is the column function of the transcript -/
+theorem printSpec_column (vars : Var) (col : Nat) (items : List PrItem) :
+    (printSpec vars col items).col = columnAfter col (printSpec vars col items).text :=
+  printSpec_col vars items col
+
+theorem printItems_column (vars : Var) (col : Nat) (items : List PrItem) :
+    (printItems vars col items).col = columnAfter col (printItems vars col items).text :=
+  printItems_col vars items col
+
+/-- **TAB, SPC and POS act on the true cursor column**: an item that follows the (error-free)
+    items `pre` is evaluated at the column function of everything `pre` has written, starting from
+    the column the statement found -/
+theorem item_sees_cursor (vars : Var) (col : Nat) (pre : List PrItem) (it : PrItem) (rest : List PrItem)
+    (h : (printItems vars col pre).err = none) :
+    printItems vars col (pre ++ it :: rest) =
+      { chunks := (printItems vars col pre).chunks ++
+          (printItems vars (columnAfter col (printItems vars col pre).text) (it :: rest)).chunks,
+        col := (printItems vars (columnAfter col (printItems vars col pre).text) (it :: rest)).col,
+        err := (printItems vars (columnAfter col (printItems vars col pre).text) (it :: rest)).err } := by
+  rw [printItems_append, h, ← printItems_col]
+  rfl
+
+/-- a trailing `;` or `,` suppresses the newline … -/
+theorem printSpec_open (vars : Var) (col : Nat) (items : List PrItem) (h : endsOpen items = true) :
+    printSpec vars col items = printItems vars col items := by
+  simp [printSpec, h]
+
+/-- … otherwise (and if no item failed) a newline is written last and the column is 0 -/
+theorem printSpec_closed (vars : Var) (col : Nat) (items : List PrItem) (h : endsOpen items = false)
+    (he : (printItems vars col items).err = none) :
+    printSpec vars col items = ⟨(printItems vars col items).chunks ++ [['\n']], 0, none⟩ := by
+  simp [printSpec, h, he]
+
+/-- an item that fails stops the list: the error, the texts written before it, no newline -/
+theorem printSpec_error (vars : Var) (col : Nat) (items : List PrItem) (e : Error)
+    (he : (printItems vars col items).err = some e) :
+    printSpec vars col items = printItems vars col items := by
+  simp [printSpec, he]
+
+/-- `endsOpen`: the last item is `;` or `,` -/
+theorem endsOpen_iff (items : List PrItem) :
+    endsOpen items = true ↔ items.getLast? = some .semi ∨ ∃ c, items.getLast? = some (.comma c) := by
+  unfold endsOpen
+  cases items.getLast? with
+  | none => simp
+  | some x => cases x <;> simp
+
+/-! #### (2) the desugared list and its code -/
+
+theorem zoneExpr_eq (c : Col) : zoneExpr c = zoneItem c := rfl
+
+/-- the statement node: every item's expression (none for `;`, `TAB(Gen.printZone)` for `,`), then
+    the newline item unless the list ends in `;` or `,` -/
+theorem printAst_eq (c cn : Col) (items : List PrItem) :
+    printAst c cn items =
+      .print c (astExprs items ++ if endsOpen items then [] else [Expr.string cn ['\n']]) := by
+  unfold printAst fullItems
+  split
+  · simp
+  · rw [astExprs_append]; rfl
+
+/-- **the parser** on `PRINT` followed by trees of the C02 fragment, `,` and `;` yields `printAst`
+    of the same list (the trees up to their recorded columns), whose meaning is that of the list
+    as written -/
+theorem print_parse (lit : Int16 → Str) (items : List Lemmas.PrintList.PItem)
+    (hfr : ∀ e, Lemmas.PrintList.PItem.expr e ∈ items → Spec.Frag (Thm.C02.LitOk lit) e)
+    (halt : Lemmas.PrintList.Alternating items) :
+    ∃ (N : Nat) (c cn : Col) (items' : List PrItem) (st' : PState),
+      SameItems items items' ∧ (∀ it ∈ items', it.Ok) ∧
+      (∀ vars col, printSpec vars col items' = printSpec vars col (items.map ofPItem)) ∧
+      st'.toks = [] ∧ st'.peeked = none ∧
+      ∀ fuel, N ≤ fuel → items.length < fuel →
+        (Parse.statement (fuel + 1)).run { toks := .word .print :: Lemmas.PrintList.renderItems lit items } =
+          .ok (printAst c cn items', st') := by
+  obtain ⟨N, c, cn, items', st', hs, h1, h2, hrun⟩ := print_statement_parse lit items hfr halt
+  exact ⟨N, c, cn, items', st', hs, sameItem_ok hs hfr,
+    fun vars col => printSpec_sameItem vars col hs hfr, h1, h2, hrun⟩
+
+/-- the code: per item its expression's code and `print`; then `literal "\n", print` unless the list
+    ends in `;` or `,` -/
+theorem stmtCode_items (c : Col) (e : Expr) :
+    itemCode (.expr e) = flat e ++ [.print] ∧
+    itemCode .semi = [] ∧
+    itemCode (.comma c) = [.literal (.int Gen.printZone), .tab, .print] ∧
+    itemCode (.tab c e) = flat e ++ [.tab, .print] ∧
+    itemCode (.spc c e) = flat e ++ [.spc, .print] ∧
+    itemCode (.pos c e) = flat e ++ [.literal (.int 1), .pos, .print] := by
+  refine ⟨itemCode_expr e, rfl, rfl, ?_, ?_, ?_⟩
+  · rw [itemCode_tab, List.append_assoc]; rfl
+  · rw [itemCode_spc, List.append_assoc]; rfl
+  · rw [itemCode_pos, List.append_assoc]; rfl
+
+/-- **code generation** (`print_codegen_shape` for a whole list): one statement fragment, no data,
+    symbols or references, code `stmtCode items`; nothing reported -/
+theorem print_codegen (c cn : Col) (items : List PrItem) (hok : ∀ it ∈ items, it.Ok)
+    (s : Codegen.VState) (hlen : (stmtCode items).length ≤ 65535) :
+    Codegen.acceptStmt (printAst c cn items) s =
+      { s with g := { s.g with stmt := s.g.stmt.push (c, plain (stmtCode items).toArray) } } :=
+  print_list_codegen_shape c cn items hok s hlen
+
+/-- the one-item instance is `print_codegen_shape` -/
+example (c cn : Col) (e : Expr) :
+    printAst c cn [.expr e] = .print c [e, .string cn ['\n']] ∧
+    stmtCode [.expr e] = flat e ++ [Opcode.print, .literal (.str ['\n']), .print] := by
+  refine ⟨rfl, ?_⟩
+  simp [stmtCode, printCode, itemCode_expr, endsOpen]
+
+/-! #### (3) the run -/
+
+/-- **PRINT, run.**  Let the code `stmtCode items` of a well-formed list lie at `s.pc` (trace off,
+    room on the stack for the code's length) and let `r = printSpec s.vars s.printCol items`.
+    * `r.err = none`: iterating `Runtime.step` over the code (`runCollect`: a `print` event hands its
+      text to the accumulator and the run goes on) prints exactly `r.chunks`, in order, and ends —
+      every step made — in `s` with `pc` behind the code and `printCol = r.col`; stack, variables
+      and all other components are those of `s`;
+    * `r.err = some e`: the run stops in exactly `e`, having printed exactly `r.chunks` (the texts of
+      the items before the failing one); the state differs from `s` in `pc`, `stack` and
+      `printCol = r.col` only — whatever fuel is given beyond the code's length. -/
+theorem print_statement_run (env : Env) (hie : Bool) (items : List PrItem) (hok : ∀ it ∈ items, it.Ok)
+    (s : Runtime) (hcode : CodeAt s.program.link.ops s.pc (stmtCode items)) (htr : s.tron = false)
+    (hroom : s.stack.size + (stmtCode items).length ≤ 65535) :
+    ((printSpec s.vars s.printCol items).err = none → ∀ acc,
+      runCollect env hie (stmtCode items).length s acc =
+        (.done,
+         { s with pc := s.pc + (stmtCode items).length, printCol := (printSpec s.vars s.printCol items).col },
+         acc ++ (printSpec s.vars s.printCol items).chunks)) ∧
+    (∀ e, (printSpec s.vars s.printCol items).err = some e → ∃ (pc' : Nat) (stk' : Array Val),
+      ∀ n, (stmtCode items).length ≤ n → ∀ acc,
+        runCollect env hie n s acc =
+          (.error e,
+           { s with pc := pc', stack := stk', printCol := (printSpec s.vars s.printCol items).col },
+           acc ++ (printSpec s.vars s.printCol items).chunks)) :=
+  ⟨fun he acc => (print_run env hie items hok s hcode htr hroom).done he acc,
+   (print_run env hie items hok s hcode htr hroom).2⟩
+
+/-- the run continues with whatever follows the statement: `m` more steps from the final state -/
+theorem print_statement_run_then (env : Env) (hie : Bool) (items : List PrItem) (hok : ∀ it ∈ items, it.Ok)
+    (s : Runtime) (hcode : CodeAt s.program.link.ops s.pc (stmtCode items)) (htr : s.tron = false)
+    (hroom : s.stack.size + (stmtCode items).length ≤ 65535)
+    (he : (printSpec s.vars s.printCol items).err = none) (m : Nat) (acc : List Str) :
+    runCollect env hie ((stmtCode items).length + m) s acc =
+      runCollect env hie m
+        { s with pc := s.pc + (stmtCode items).length, printCol := (printSpec s.vars s.printCol items).col }
+        (acc ++ (printSpec s.vars s.printCol items).chunks) :=
+  (print_run env hie items hok s hcode htr hroom).1 he m acc
+
+/-- **compiled and run**: the node compiles to one fragment whose code is `stmtCode items`, and that
+    code, wherever it lies, runs as `printSpec` says -/
+theorem print_statement_compiled (env : Env) (hie : Bool) (c cn : Col) (items : List PrItem)
+    (hok : ∀ it ∈ items, it.Ok) (vs : Codegen.VState) (hlen : (stmtCode items).length ≤ 65535) :
+    ∃ frag : Link,
+      (Codegen.acceptStmt (printAst c cn items) vs).g.stmt = vs.g.stmt.push (c, frag) ∧
+      (Codegen.acceptStmt (printAst c cn items) vs).errors = vs.errors ∧
+      frag.ops = (stmtCode items).toArray ∧
+      ∀ (s : Runtime), CodeAt s.program.link.ops s.pc frag.ops.toList → s.tron = false →
+        s.stack.size + frag.ops.size ≤ 65535 →
+        RunsTo env hie frag.ops.size s (printSpec s.vars s.printCol items) :=
+  compilePrint_correct env hie c cn items hok vs hlen
+
+/-- **through `Runtime.execute`** (no failing item): a running machine with no errors among its
+    direct statements, called once per text with a quantum that covers the code, returns exactly
+    the `print` events of the specification, in order, and is left behind the code -/
+theorem print_statement_execute (env : Env) (q : Nat) (items : List PrItem) (hok : ∀ it ∈ items, it.Ok)
+    (s : Runtime) (hcode : CodeAt s.program.link.ops s.pc (stmtCode items)) (htr : s.tron = false)
+    (hroom : s.stack.size + (stmtCode items).length ≤ 65535)
+    (hst : s.state = .running) (hde : s.listing.directErrors.isEmpty = true) (hq : (stmtCode items).length ≤ q)
+    (herr : (printSpec s.vars s.printCol items).err = none) (acc : List Str) :
+    slices env q (printSpec s.vars s.printCol items).chunks.length s acc =
+      ({ s with pc := s.pc + (stmtCode items).length, printCol := (printSpec s.vars s.printCol items).col },
+       acc ++ (printSpec s.vars s.printCol items).chunks) :=
+  print_run_execute env q items hok s hcode htr hroom hst hde hq herr acc
+
+/-! #### (4) the column is carried across statements -/
+
+/-- **two PRINT statements in sequence** print the texts of the first, then the texts of the second
+    *computed from the column the first has left* (`(printSpec … a).col`, which is `columnAfter` of
+    the first's transcript: 0 after a newline, the true cursor column after a trailing `;` or `,`) -/
+theorem print_carry_over (env : Env) (hie : Bool) (a b : List PrItem)
+    (hoka : ∀ it ∈ a, it.Ok) (hokb : ∀ it ∈ b, it.Ok) (s : Runtime)
+    (hcode : CodeAt s.program.link.ops s.pc (stmtCode a ++ stmtCode b)) (htr : s.tron = false)
+    (hroom : s.stack.size + (stmtCode a ++ stmtCode b).length ≤ 65535)
+    (h1 : (printSpec s.vars s.printCol a).err = none)
+    (h2 : (printSpec s.vars (printSpec s.vars s.printCol a).col b).err = none) (acc : List Str) :
+    runCollect env hie (stmtCode a ++ stmtCode b).length s acc =
+      (.done,
+       { s with pc := s.pc + (stmtCode a ++ stmtCode b).length,
+                printCol := (printSpec s.vars (printSpec s.vars s.printCol a).col b).col },
+       acc ++ ((printSpec s.vars s.printCol a).chunks ++
+         (printSpec s.vars (printSpec s.vars s.printCol a).col b).chunks)) :=
+  print_run_two_done env hie a b hoka hokb s hcode htr hroom h1 h2 acc
+
+/-- the column the second statement starts in is the column function of the first's transcript -/
+theorem carried_column (vars : Var) (col : Nat) (a : List PrItem) :
+    (printSpec vars col a).col = columnAfter col (printSpec vars col a).text := printSpec_col vars a col
+
+end statement
+
+/-! #### (5) non-vacuity: `PRINT "AB";TAB(5);"C",POS(0)` and friends -/
+
+section demo
+open Spec Lemmas.PrintRun Lemmas.ExprCompile
+
+/-- the tokens of `PRINT "AB";TAB(5);"C",POS(0)` -/
+def demoToks : List Token :=
+  [.word .print, .literal (.string "AB".toList), .semicolon, .ident (.plain "TAB".toList), .lparen,
+   .literal (.integer "5".toList), .rparen, .semicolon, .literal (.string "C".toList), .comma,
+   .ident (.plain "POS".toList), .lparen, .literal (.integer "0".toList), .rparen]
+
+/-- its items, with the column ranges the parser records -/
+def demoItems : List PrItem :=
+  [.expr (.string (5, 9) "AB".toList), .semi, .tab (10, 16) (.integer (14, 15) 5), .semi,
+   .expr (.string (17, 20) "C".toList), .comma (20, 21), .pos (21, 27) (.integer (25, 26) 0)]
+
+theorem demoItems_ok : ∀ it ∈ demoItems, it.Ok := by
+  intro it h
+  simp only [demoItems, List.mem_cons, List.not_mem_nil, or_false] at h
+  rcases h with rfl | rfl | rfl | rfl | rfl | rfl | rfl <;>
+    first | trivial | exact Pure.string _ _ | exact Pure.integer _ _
+
+/-- parser state of the demo: `k` tokens read, look-ahead `pk`, column range `cs..ce` -/
+def demoSt (k : Nat) (pk : Option Token) (cs ce : Nat) : Parse.PState :=
+  { toks := demoToks.drop k, peeked := pk, cs := cs, ce := ce }
+
+/-- **the parser** builds `printAst` of the demo items: strings, `TAB(5)`, `POS(0)`, `,` as
+    `TAB(-14)`, `;` as nothing, the newline item last (every step an evaluation of the model) -/
+theorem demo_parse :
+    (Parse.statement 21).run { toks := demoToks } =
+      .ok (printAst (0, 5) (27, 27) demoItems, demoSt 14 none 27 27) := by
+  refine statement_print_step (st1 := demoSt 1 (some (.word .print)) 0 5) (st2 := demoSt 1 none 0 5) rfl rfl ?_
+  refine (printList_step_item (t := .literal (.string "AB".toList))
+    (st1 := demoSt 2 (some (.literal (.string "AB".toList))) 5 9) (st2 := demoSt 3 (some .semicolon) 9 10)
+    (e := .string (5, 9) "AB".toList) rfl rfl nofun nofun rfl).trans ?_
+  refine (printList_step_semi (st1 := demoSt 3 (some .semicolon) 9 10) (st2 := demoSt 3 none 9 10) rfl rfl).trans ?_
+  refine (printList_step_item (t := .ident (.plain "TAB".toList))
+    (st1 := demoSt 4 (some (.ident (.plain "TAB".toList))) 10 13) (st2 := demoSt 8 (some .semicolon) 16 17)
+    (e := tabCall (10, 16) (.integer (14, 15) 5)) rfl rfl nofun nofun rfl).trans ?_
+  refine (printList_step_semi (st1 := demoSt 8 (some .semicolon) 16 17) (st2 := demoSt 8 none 16 17) rfl rfl).trans ?_
+  refine (printList_step_item (t := .literal (.string "C".toList))
+    (st1 := demoSt 9 (some (.literal (.string "C".toList))) 17 20) (st2 := demoSt 10 (some .comma) 20 21)
+    (e := .string (17, 20) "C".toList) rfl rfl nofun nofun rfl).trans ?_
+  refine (printList_step_comma (st1 := demoSt 10 (some .comma) 20 21) (st2 := demoSt 10 none 20 21) rfl rfl).trans ?_
+  refine (printList_step_item (t := .ident (.plain "POS".toList))
+    (st1 := demoSt 11 (some (.ident (.plain "POS".toList))) 21 24) (st2 := demoSt 14 none 27 27)
+    (e := posCall (21, 27) (.integer (25, 26) 0)) rfl rfl nofun nofun rfl).trans ?_
+  exact printList_step_end (st1 := demoSt 14 none 27 27) (t := none) rfl rfl
+
+/-- the parsed list, spelled out -/
+example : printAst (0, 5) (27, 27) demoItems =
+    .print (0, 5) [.string (5, 9) "AB".toList, tabCall (10, 16) (.integer (14, 15) 5), .string (17, 20) "C".toList,
+      zoneItem (20, 21), posCall (21, 27) (.integer (25, 26) 0), .string (27, 27) ['\n']] := rfl
+
+/-- **the code** -/
+theorem demo_code : stmtCode demoItems =
+    [.literal (.str "AB".toList), .print, .literal (.int 5), .tab, .print, .literal (.str "C".toList), .print,
+     .literal (.int (-14)), .tab, .print, .literal (.int 0), .literal (.int 1), .pos, .print,
+     .literal (.str ['\n']), .print] := rfl
+
+/-- **code generation** on the parsed node: exactly that code, nothing reported -/
+example : (Codegen.acceptStmt (printAst (0, 5) (27, 27) demoItems) {}).g.stmt =
+      #[((0, 5), plain (stmtCode demoItems).toArray)] ∧
+    (Codegen.acceptStmt (printAst (0, 5) (27, 27) demoItems) {}).errors = [] := by
+  rw [print_codegen (0, 5) (27, 27) demoItems demoItems_ok {} (by rw [demo_code]; decide)]
+  exact ⟨rfl, rfl⟩
+
+/-- **the specification from column 0**: `AB`, three blanks to column 5, `C`, eight blanks to the
+    zone stop 14, POS(0) = 14 printed as ` 14 `, newline; column 0 afterwards -/
+theorem demo_spec_0 (vars : Var) : printSpec vars 0 demoItems =
+    ⟨["AB".toList, "   ".toList, "C".toList, "        ".toList, " 14 ".toList, "\n".toList], 0, none⟩ := rfl
+
+/-- **from column 3**: `AB` ends in column 5, so `TAB(5)` writes nothing; the rest as before -/
+theorem demo_spec_3 (vars : Var) : printSpec vars 3 demoItems =
+    ⟨["AB".toList, [], "C".toList, "        ".toList, " 14 ".toList, "\n".toList], 0, none⟩ := rfl
+
+/-- POS reads the cursor where it stands: `PRINT "AB";POS(0);` from column 3 prints ` 5 ` and stays
+    on the line (column 8); from column 0 it prints ` 2 ` -/
+example (vars : Var) (c : Col) :
+    printSpec vars 3 [.expr (.string c "AB".toList), .semi, .pos c (.integer c 0), .semi] =
+      ⟨["AB".toList, " 5 ".toList], 8, none⟩ ∧
+    printSpec vars 0 [.expr (.string c "AB".toList), .semi, .pos c (.integer c 0), .semi] =
+      ⟨["AB".toList, " 2 ".toList], 5, none⟩ := ⟨rfl, rfl⟩
+
+/-- numbers: blank or minus sign in front, one blank behind; `,` from column 4 goes to column 14 -/
+example (vars : Var) (c : Col) :
+    printSpec vars 0 [.expr (.integer c 42), .comma c, .expr (.neg c (.integer c 7))] =
+      ⟨[" 42 ".toList, "          ".toList, "-7 ".toList, "\n".toList], 0, none⟩ := rfl
+
+/-- SPC and a zone stop at an exact multiple: from column 14 a `,` writes 14 blanks -/
+example (vars : Var) (c : Col) :
+    printSpec vars 12 [.spc c (.integer c 2), .comma c] =
+      ⟨["  ".toList, List.replicate 14 ' '], 28, none⟩ := rfl
+
+/-- an error stops the list: `PRINT "A";TAB(300);"B"` writes `A`, then OVERFLOW; no newline -/
+theorem demo_spec_error (vars : Var) (c : Col) :
+    printSpec vars 0 [.expr (.string c "A".toList), .semi, .tab c (.integer c 300), .semi,
+      .expr (.string c "B".toList)] = ⟨["A".toList], 1, some (Error.mk' Code.overflow)⟩ := rfl
+
+/-- **the run from column 0**, in any machine state that holds the code at `pc` -/
+example (env : Env) (hie : Bool) (s : Runtime)
+    (hcode : CodeAt s.program.link.ops s.pc (stmtCode demoItems)) (htr : s.tron = false)
+    (hroom : s.stack.size + 16 ≤ 65535) (hcol : s.printCol = 0) :
+    runCollect env hie 16 s [] =
+      (.done, { s with pc := s.pc + 16, printCol := 0 },
+       ["AB".toList, "   ".toList, "C".toList, "        ".toList, " 14 ".toList, "\n".toList]) := by
+  have h := (print_statement_run env hie demoItems demoItems_ok s hcode htr hroom).1
+  rw [hcol, demo_spec_0] at h
+  exact h rfl []
+
+/-- **the run from column 3**: TAB(5) prints the empty text, POS still reports 14 -/
+example (env : Env) (hie : Bool) (s : Runtime)
+    (hcode : CodeAt s.program.link.ops s.pc (stmtCode demoItems)) (htr : s.tron = false)
+    (hroom : s.stack.size + 16 ≤ 65535) (hcol : s.printCol = 3) :
+    runCollect env hie 16 s [] =
+      (.done, { s with pc := s.pc + 16, printCol := 0 },
+       ["AB".toList, [], "C".toList, "        ".toList, " 14 ".toList, "\n".toList]) := by
+  have h := (print_statement_run env hie demoItems demoItems_ok s hcode htr hroom).1
+  rw [hcol, demo_spec_3] at h
+  exact h rfl []
+
+/-- a concrete machine: the demo's code is the whole program, the cursor stands in column `col` -/
+def demoRt (col : Nat) : Runtime :=
+  { program := { link := { ops := (stmtCode demoItems).toArray } }, printCol := col }
+
+example (env : Env) :
+    runCollect env false 16 (demoRt 3) [] =
+      (.done, { demoRt 3 with pc := 16, printCol := 0 },
+       ["AB".toList, [], "C".toList, "        ".toList, " 14 ".toList, "\n".toList]) := by
+  have hcode : CodeAt (demoRt 3).program.link.ops (demoRt 3).pc (stmtCode demoItems) :=
+    CodeAt.of_append #[] #[] (stmtCode demoItems)
+  have h := (print_statement_run env false demoItems demoItems_ok (demoRt 3) hcode rfl (by decide)).1
+  exact h rfl []
+
+/-- **the error case, run**: `A` is printed, then the run stops in OVERFLOW with the cursor in column 1 -/
+example (env : Env) (hie : Bool) (s : Runtime) (c : Col)
+    (hcode : CodeAt s.program.link.ops s.pc (stmtCode
+      [.expr (.string c "A".toList), .semi, .tab c (.integer c 300), .semi, .expr (.string c "B".toList)]))
+    (htr : s.tron = false) (hroom : s.stack.size + 9 ≤ 65535) (hcol : s.printCol = 0) :
+    ∃ pc' stk', ∀ n, 9 ≤ n →
+      runCollect env hie n s [] =
+        (.error (Error.mk' Code.overflow), { s with pc := pc', stack := stk', printCol := 1 }, ["A".toList]) := by
+  have h := (print_statement_run env hie _ (by
+    intro it hit
+    simp only [List.mem_cons, List.not_mem_nil, or_false] at hit
+    rcases hit with rfl | rfl | rfl | rfl | rfl <;>
+      first | trivial | exact Pure.string _ _ | exact Pure.integer _ _) s hcode htr hroom).2
+  rw [hcol, demo_spec_error] at h
+  obtain ⟨pc', stk', hrun⟩ := h _ rfl
+  exact ⟨pc', stk', fun n hn => hrun n hn []⟩
+
+/-- **carry-over**: `PRINT "AB";` then `PRINT POS(0)` from column 0 — the second statement starts in
+    column 2 and says so -/
+example (env : Env) (hie : Bool) (s : Runtime) (c : Col)
+    (hcode : CodeAt s.program.link.ops s.pc
+      (stmtCode [.expr (.string c "AB".toList), .semi] ++ stmtCode [.pos c (.integer c 0)]))
+    (htr : s.tron = false) (hroom : s.stack.size + 8 ≤ 65535) (hcol : s.printCol = 0) :
+    runCollect env hie 8 s [] =
+      (.done, { s with pc := s.pc + 8, printCol := 0 }, ["AB".toList, " 2 ".toList, "\n".toList]) := by
+  have h := print_carry_over env hie [.expr (.string c "AB".toList), .semi] [.pos c (.integer c 0)]
+    (by
+      intro it hit
+      simp only [List.mem_cons, List.not_mem_nil, or_false] at hit
+      rcases hit with rfl | rfl <;> first | trivial | exact Pure.string _ _)
+    (by
+      intro it hit
+      simp only [List.mem_cons, List.not_mem_nil, or_false] at hit
+      subst hit; exact Pure.integer _ _)
+    s hcode htr hroom
+  have e1 : printSpec s.vars 0 [.expr (.string c "AB".toList), .semi] = ⟨["AB".toList], 2, none⟩ := rfl
+  have e2 : printSpec s.vars 2 [.pos c (.integer c 0)] = ⟨[" 2 ".toList, "\n".toList], 0, none⟩ := rfl
+  rw [hcol, e1] at h
+  simp only at h
+  rw [e2] at h
+  exact h trivial rfl []
+
+end demo
 
 end Thm.C11
 end Basic
